@@ -21,9 +21,9 @@ var (
 	ten18Flt = new(big.Float).SetPrec(refPrec).SetInt(ten18)
 )
 
-func newF() *big.Float             { return new(big.Float).SetPrec(refPrec) }
-func fInt(i int64) *big.Float      { return newF().SetInt64(i) }
-func fBig(i *big.Int) *big.Float   { return newF().SetInt(i) }
+func newF() *big.Float                { return new(big.Float).SetPrec(refPrec) }
+func fInt(i int64) *big.Float         { return newF().SetInt64(i) }
+func fBig(i *big.Int) *big.Float      { return newF().SetInt(i) }
 func fMul(a, b *big.Float) *big.Float { return newF().Mul(a, b) }
 func fQuo(a, b *big.Float) *big.Float { return newF().Quo(a, b) }
 func fAdd(a, b *big.Float) *big.Float { return newF().Add(a, b) }
@@ -37,7 +37,7 @@ func atanhSeries(z *big.Float) *big.Float {
 	for k := int64(3); k < 2000; k += 2 {
 		term = fMul(term, z2)
 		t := fQuo(term, fInt(k))
-		if t.Sign() == 0 || t.MantExp(nil)-sum.MantExp(nil) < -(refPrec + 8) {
+		if t.Sign() == 0 || t.MantExp(nil)-sum.MantExp(nil) < -(refPrec+8) {
 			break
 		}
 		sum = fAdd(sum, t)
